@@ -14,6 +14,8 @@ import json
 
 
 def run_items(items):
+    import logging
+    logging.disable(logging.CRITICAL)
     keep_path = list(sys.path)
     devnull = open(os.devnull, "w")
     real = sys.stdout
